@@ -272,5 +272,66 @@ def profile_errors(rnd, tier):
     return nchan, steps
 
 
-PROFILES = {'rpc': profile_rpc, 'get': profile_get, 'confirm': profile_confirm,
+def profile_faults(rnd, tier):
+    """C06: the transport dies at some point of a session."""
+    nchan = rnd.choice([1, 2, 2])
+    g = Gen(rnd, nchan)
+    steps = []
+    kind = rnd.choice(['recv', 'recv', 'reset', 'send', 'poll'])
+    fault = {'recv': (0, F('NFaultRecv', 0)), 'reset': (0, F('NFaultRecv', 1)),
+             'send': (0, F('NFaultSend')), 'poll': (0, F('NFaultPoll'))}[kind]
+    n = rnd.randrange(2, 7)
+    at = rnd.randrange(0, n)
+    confirm = rnd.random() < 0.3
+    if confirm:
+        steps.append((1, ('rpc', 3), [[(1, F('NSelectOk'))]]))
+    tags = []
+    for i in range(n):
+        c = rnd.randrange(1, nchan + 1)
+        r = rnd.random()
+        if r < 0.3:
+            g.serial += 1
+            ticks = [[], [(c, F('NDeclareOk', g.serial))]]
+            op = ('rpc', 0)
+        elif r < 0.45:
+            g.dtag += 1
+            fr = g.content(c, F('NGetOk', g.dtag))
+            ticks = [fr[:1], fr[1:2], fr[2:]]
+            op = ('get',)
+            if tags:
+                op, ticks = ('ack',), []
+        elif r < 0.6:
+            op = ('publish', rnd.random() < 0.5)
+            ticks = [[], [(c, F('NAck', -1))]] if (confirm and c == 1) else []
+        elif r < 0.7 and c == 1:
+            op = ('consume', b'ct%d' % i)
+            ticks = [[], [(c, F('NConsumeOk', 0, b'ct%d' % i))]]
+            tags.append(b'ct%d' % i)
+        elif r < 0.8:
+            op, ticks = ('idle',), [g.delivery(c, b'ct0')]
+        elif r < 0.9:
+            op, ticks = ('build',), [[], g.delivery(c, b'ct0')]
+        else:
+            op, ticks = ('ack',), []
+        if i == at:
+            if op[0] in ('ack', 'check') or not ticks:
+                steps.append((c, ('idle',), [[fault]]))
+            else:
+                k = rnd.randrange(0, len(ticks))
+                ticks = [list(t) for t in ticks]
+                pos = rnd.randrange(0, len(ticks[k]) + 1)
+                ticks[k].insert(pos, fault)
+                # after the peer is gone nothing more arrives
+                if kind in ('recv', 'reset'):
+                    ticks[k] = ticks[k][:pos + 1]
+                    ticks = ticks[:k + 1]
+        steps.append((c, op, ticks))
+    for _ in range(rnd.randrange(1, 4)):
+        c = rnd.randrange(1, nchan + 1)
+        steps.append((c, rnd.choice([('ack',), ('check',), ('rpc', 0), ('publish', False),
+                                     ('close',), ('stop',), ('build',)]), []))
+    return nchan, steps
+
+
+PROFILES = {'faults': profile_faults, 'rpc': profile_rpc, 'get': profile_get, 'confirm': profile_confirm,
             'consume': profile_consume, 'errors': profile_errors}
